@@ -251,8 +251,12 @@ class MessagePackRpc(MessagePackDocument):
 
         if not six.PY2:
             if isinstance(msgname_or_error, bytes):
-                msgname_or_error = msgname_or_error.decode(
+                try:
+                    msgname_or_error = msgname_or_error.decode(
                                                    self.default_string_encoding)
+                except UnicodeDecodeError:
+                    raise MessagePackDecodeError("Method name is not valid %s"
+                                                % self.default_string_encoding)
 
         if msgtype == MessagePackRpc.MSGPACK_REQUEST:
             if message != MessagePackRpc.REQUEST:
